@@ -71,6 +71,11 @@ Theorem C15_ravel3_injective : forall d1 d2 d3 x y z x' y' z',
 Proof. exact ravel3_bijective. Qed.
 Print Assumptions C15_ravel3_injective.
 
+(* multi-dimensional coordinates are flattened with row-major strides, for any number of axes *)
+Theorem C15_dim_map_nd_strides_row_major : forall d t, nd_strides (d :: t) = row_major (d :: t).
+Proof. exact nd_strides_row_major. Qed.
+Print Assumptions C15_dim_map_nd_strides_row_major.
+
 (* partial trace is the adjoint of embedding, over ANY commutative ring *)
 Theorem C15_ptr_adjoint_of_embedding :
   forall (K : Type) (k0 k1 : K) (kadd kmul ksub : K -> K -> K) (kopp : K -> K),
